@@ -18,3 +18,19 @@ package influxql
 //@   call isIdentChar
 //@     requires i > 0 && arg0 == r
 //@   ensures !result ==> tokIdent
+
+// The store re-parses the shipped condition text with this hand-written expression parser, while the plan was
+// built from the yacc grammar (left-associative) and printed without extra parentheses. The tree is rebuilt
+// correctly only if operators of EQUAL precedence group to the left: the parser may descend into the right
+// operand only when that operand's operator binds strictly less tightly than the operator being added.
+//@ func (*Parser).ParseExpr
+//@   ghost pr int = 0
+//@   ghost po int = 0
+//@   call Token.Precedence on r.Op
+//@     set pr = ret0
+//@     frame nothing
+//@   call Token.Precedence on op
+//@     set po = ret0
+//@     frame nothing
+//@   call append with stack
+//@     requires [left_assoc] pr < po
